@@ -74,6 +74,10 @@ def check_state(res, m, model, step, opname):
         lrs = [g[0]["lr"]]
         for K in (uo.SGD, uo.Adam, uo.AdamW):
             lrs.append(K([p], lr=1.0).param_groups[0]["lr"])
+        # the learning rate as a 0-d tensor (its own dtype - float64 - whatever the parameter's dtype has become)
+        tl = torch.tensor(1.0, dtype=torch.float64)
+        lrs.append(uo.Adam([p], lr=tl).param_groups[0]["lr"])
+        lrs.append(list(uo.scaled_parameters([p], uo.lr_scale_func_sgd(None), lr=tl))[0]["lr"])
     except Exception as e:  # noqa: BLE001
         res.fail(f"C09.optimizer-rejects:{kind}", f"{type(e).__name__}: {e} {where}")
         return False
